@@ -161,7 +161,7 @@ func (g *G) nodeOfKind(k spec.Kind, depth int) *spec.Node {
 			g.mergeCuts(n)
 		}
 		if g.O.StructTests && g.pct(8) {
-			n.Derive = g.R.Range(1, 4)
+			n.Derive = g.R.Range(1, 5)
 		}
 	case spec.Ptr:
 		n.Elem = g.node(depth + 1)
